@@ -30,24 +30,35 @@ PROPS = {
 }
 
 PROPS["C10"] = {
-    "drivers": [COOKIE],
-    "rule": "save/clear histories (2-6 ops) in an RFC 6265 jar (net/http/cookiejar) over 9 cookie configurations (names of 1..256 bytes, "
-            "domains, paths, regex metacharacters in the name) with value sizes swept byte-by-byte around the first three split "
-            "thresholds; every Set-Cookie list and every load result is compared with the model; non-trivial = a save/clear/load "
-            "step of a history (all are); distinct = distinct model call",
-    "assumptions": ["HMAC-SHA256 modelled as a function (table of true MACs); AES-CFB/msgpack/lz4 are outside the compared core: the "
-                    "model works on the encrypted value, the driver's session-level round trips (oracle) cover the codec",
-                    "theorem c10_load_after_save is stated for requests that present exactly the cookies of the save (predicate "
-                    "`presents`); that a browser jar does so after any history is exercised by the jar histories of the correspondence"],
+    "drivers": [COOKIE, MAIN],
+    "rule": "cookie-store driver: save/clear histories (2-6 ops) in an RFC 6265 jar (net/http/cookiejar) over 9 cookie configurations "
+            "(names of 1..256 bytes, domains, paths, regex metacharacters in the name) with value sizes swept byte-by-byte around the first "
+            "three split thresholds; every Set-Cookie list, every load result and the jar's final contents (model: jar_run from the empty "
+            "jar) are compared with the model; whole-proxy driver: histories of whole SessionState values (tokens of 0..14000 "
+            "incompressible bytes, Unicode/NUL/empty fields, nil/empty/200 groups, binary nonce) saved and cleared through the configured "
+            "store - cookie store, persistence manager over the in-memory Redis client, persistence manager over the repository's real "
+            "Redis client against miniredis - with the jar carried across steps and the loaded session compared field by field; "
+            "non-trivial = a save/clear/load step of a history (all are); distinct = distinct model call",
+    "assumptions": ["HMAC-SHA256 modelled as a function (table of true MACs); AES-CFB/msgpack/lz4 are outside the modelled core: the "
+                    "model works on the encrypted value, the session-level round trips (oracle) cover the codec",
+                    "c10_history assumes the browser holds no cookie of the session family (name, name_<digits>) under another domain "
+                    "or path than the one the proxy sets (dom_ok), a cookie name shorter than the 256-byte split-name limit, a "
+                    "non-negative cookie-expire, and signed values shorter than 2^63 bytes",
+                    "the Redis store is modelled as a key-value map (Model/Ticket.v); the real client is exercised against miniredis by "
+                    "the oracle only"],
     "trusted_base": ["net/http Cookie.String() serialisation is modelled (Model/Cookies.v) and compared byte for byte on every case",
-                     "net/http/cookiejar as the browser"],
-    "level_text": "c10_parts (parts concatenate to the signed value, each <= maxCookieLength <= 4096, numbered names), c10_split_progress, "
-                  "c10_load_after_save (for every config with a valid name, every non-empty value and every earlier cookie set, Save "
-                  "emits deletions ++ parts and a request presenting those parts loads exactly the saved value), c10_clear_complete "
-                  "are proved for all inputs of the Gallina model of pkg/sessions/cookie; the model's Save/Load/Clear are compared with "
-                  "the Go functions on save/clear histories through a real cookie jar on every run.",
-    "level_note": "Server-side (Redis) store part of C10 is covered by the ticket model under C02/C13; jar-level induction over histories is "
-                  "checked by correspondence, not by a theorem.",
+                     "net/http/cookiejar as the browser; Model/Jar.v is compared with it at the end of every history (names and values)",
+                     "miniredis as the Redis server for the real-client histories"],
+    "level_text": "c10_history (any sequence of saves of any sizes and clears, each computed from and applied to the browser jar: after a "
+                  "save the next request loads exactly that value and timestamp, after a clear no cookie of the family is left and nothing "
+                  "loads, cookies outside the family are untouched), c10_parts (parts concatenate to the signed value, each <= "
+                  "maxCookieLength <= 4096, numbered names), c10_split_progress, c10_load_after_save, c10_clear_complete, "
+                  "c10_ts_ok_range (itoa/atoi round trip on the int64 range) are proved for all inputs of the Gallina model of "
+                  "pkg/sessions/cookie and of the jar; the model's Save/Load/Clear and the jar are compared with the Go functions and "
+                  "net/http/cookiejar on save/clear histories on every run.",
+    "level_note": "The theorem is about the cookie store; for the server-side store the history clause is decided by the oracle over "
+                  "the real persistence manager and Redis client (in-memory client and miniredis), the ticket cookie itself being a "
+                  "cookie of the same family handled by the same jar argument (Model/Ticket.v, C02/C13 theorems).",
 }
 
 PROPS["C03"] = {
